@@ -23,7 +23,7 @@ EXPLANATION = (
     "and nothing else. C05.e (twin evaluations of one curve): the daily root expansion is the difference of the potential-depth curve "
     "at today's and yesterday's development time; the two evaluations receive the same sequence of definitions (after renaming the "
     "time variable) - in particular the restrictive-layer correction is applied to both or to neither - otherwise the difference is "
-    "negative and the roots shrink. C05.f: the stress multiplier of the harvest index reaches the adjusted index only through the limit 1 + dHI0/100 (must-pass-through; the cap on the product of the pre- and post-anthesis factors, not on one factor). C05.g: in the restrictive-layer correction the penetrability fraction multiplies potential depth (potential -> actual) and divides the crossed thickness (actual -> potential). C05.h: = C04.d (the submergence factor of ponded-water transpiration stays >= 0: a negative daily transpiration makes biomass decrease). C05.i: yesterday's development time in root_development is today's delay-adjusted time minus the day's increment (1 day / the day's degree days), per calendar type, by polynomial normal form. C05.j (canopy cover <= CCx, structural half): in canopy_cover a raw arithmetic value reaches the canopy-cover fields only through a bound - cc_development, min with a bounded arm, a dominating clamp `if v > B: v = B`, a guard `v < bounded`, or a clamp right after the store. C05.k (deviant sibling): every division of the thermal-time conversion by a difference of calendar stages is preceded by a test of that difference against 0 (raise or positive fallback). C05.l (T-ARGS): no call below the daily step binds two positional arguments crosswise (e.g. the day's minimum and maximum temperature handed to the degree-day routine). C05.m (= T-TIME): development times, delays and stage lengths are combined in one unit per calendar type. C05.n: the season reset clears the cumulative degree days and the two delay counters on every path (not only for thermal-time crops): the reported cumulative value is the sum of the season's daily degree days. NOT decided: canopy envelope, harvest-index monotonicity, root depth <= Zmax, degree-day range "
+    "negative and the roots shrink. C05.f: the stress multiplier of the harvest index reaches the adjusted index only through the limit 1 + dHI0/100 (must-pass-through; the cap on the product of the pre- and post-anthesis factors, not on one factor). C05.g: in the restrictive-layer correction the penetrability fraction multiplies potential depth (potential -> actual) and divides the crossed thickness (actual -> potential). C05.h: = C04.d (the submergence factor of ponded-water transpiration stays >= 0: a negative daily transpiration makes biomass decrease). C05.i: yesterday's development time in root_development is today's delay-adjusted time minus the day's increment (1 day / the day's degree days), per calendar type, by polynomial normal form. C05.j (canopy cover <= CCx, structural half): in canopy_cover a raw arithmetic value reaches the canopy-cover fields only through a bound - cc_development, min with a bounded arm, a dominating clamp `if v > B: v = B`, a guard `v < bounded`, or a clamp right after the store. C05.k (deviant sibling): every division of the thermal-time conversion by a difference of calendar stages is preceded by a test of that difference against 0 (raise or positive fallback). C05.l (T-ARGS): no call below the daily step binds two positional arguments crosswise (e.g. the day's minimum and maximum temperature handed to the degree-day routine). C05.m (= T-TIME): development times, delays and stage lengths are combined in one unit per calendar type. C05.n: the season reset clears the cumulative degree days and the two delay counters on every path (not only for thermal-time crops): the reported cumulative value is the sum of the season's daily degree days. C05.o: in the daily step the groundwater check (which loads the day's table depth into the state) dominates root development. NOT decided: canopy envelope, harvest-index monotonicity, root depth <= Zmax, degree-day range "
     "(numeric trajectories).")
 
 ZERO_COLS = ["dap", "gdd_cum", "z_root", "canopy_cover", "canopy_cover_ns", "biomass", "biomass_ns",
@@ -66,6 +66,7 @@ def run(chk, prog, tier):
     rule_g(chk, prog)
     rule_j(chk, prog)
     rule_k(chk, prog)
+    rule_o(chk, prog)
     # C05.n: the thermal-time counters start every season at 0 (cumulative degree days = sum of the season's daily values)
     from .c07 import rule_f as cleared_by_reset
     cleared_by_reset(chk, prog, rule="C05.n", flags={"gdd_cum": 0, "delayed_gdds": 0, "delayed_cds": 0})
@@ -230,6 +231,27 @@ def rule_k(chk, prog):
             chk.violation("C05.k", where, construct, "division by a difference of converted calendar stages with no test of the difference: with a planting period too cold for "
                           "the crop the stages coincide (0 degree days apart) and the coefficient is inf - canopy cover, potential biomass and yield are NaN all season", loc=fi.loc(x))
     chk.floor("C05.k", n, 2, "divisions by a difference of calendar stages in compute_crop_calendar")
+
+
+def rule_o(chk, prog):
+    """C05.o (roots never below a present water table - the table of the day): in the daily step the groundwater check, which loads the
+    day's water-table depth into the state, precedes root development (it is never reached after it): the rooting depth is
+    limited by today's table, the one reported in the same row."""
+    step = prog.func(STEP_FN)
+    flow = flow_of(step)
+    dom = flow.cfg.dominators()
+    gw = [flow.node_of(c) for c, t in prog.calls_in(step) if getattr(t, "name", "") == "check_groundwater_table"]
+    rd = [flow.node_of(c) for c, t in prog.calls_in(step) if getattr(t, "name", "") == "root_development"]
+    if len(gw) != 1 or len(rd) != 1 or None in gw + rd:
+        raise AnalysisError("expected one call each of check_groundwater_table and root_development in the step")
+    construct = "check_groundwater_table(...) before root_development(...)"
+    # (the check may be skipped without a water table; what must not happen is that it runs after the roots were limited)
+    if not flow.cfg.paths_exist_avoiding(rd[0], gw[0], set()) and flow.cfg.paths_exist_avoiding(gw[0], rd[0], set()):
+        chk.ok("C05.o", STEP_FN, construct, "the day's water-table depth is in the state when the rooting depth is limited")
+    else:
+        chk.violation("C05.o", STEP_FN, construct, "root development runs before the day's water-table depth is loaded: the rooting depth is limited by yesterday's table "
+                      "(a rising table leaves the roots below it, and pulls them up a day late)", loc=step.loc())
+    chk.floor("C05.o", 1, 1, "ordering of the groundwater check and root development")
 
 
 def _strip_float(e):
